@@ -119,6 +119,11 @@ impl ParseAttribute for InputVariant {
             }
 
             self.attr_name = FromMeta::from_meta(mi)?;
+
+            // The `r#` of a raw identifier is spelling, not part of the name.
+            if let Some(bare) = self.attr_name.as_deref().and_then(|n| n.strip_prefix("r#")) {
+                self.attr_name = Some(bare.to_string());
+            }
         } else if path.is_ident("skip") {
             if self.skip.is_some() {
                 return Err(Error::duplicate_field_path(path).with_span(mi));
